@@ -231,6 +231,45 @@ func c09ShapeFams() []c09Fam {
 	return out
 }
 
+// fatten: every isolated letter or digit of a unit (a one-character name,
+// body, value or number) grown to k characters. A cost that applies only to
+// tokens longer than some threshold (the 5-byte comment prefix test, the
+// 31-byte token value clip) does not show on the one-character bodies the
+// catalogue is written with.
+func fatten(u string, k int) string {
+	isAN := func(c byte) bool { return c >= 'a' && c <= 'z' || c >= 'A' && c <= 'Z' || c >= '0' && c <= '9' }
+	var b strings.Builder
+	for i := 0; i < len(u); i++ {
+		c := u[i]
+		if isAN(c) && (i == 0 || !isAN(u[i-1])) && (i+1 == len(u) || !isAN(u[i+1])) {
+			b.WriteString(strings.Repeat(string(c), k))
+		} else {
+			b.WriteByte(c)
+		}
+	}
+	return b.String()
+}
+
+func c09FatFams() []c09Fam {
+	var out []c09Fam
+	seen := map[string]bool{}
+	for _, fm := range c09Catalogue() {
+		for _, k := range []int{8, 40} {
+			fu := fatten(fm.f.unit, k)
+			if fu == fm.f.unit {
+				continue
+			}
+			key := fm.det + "|" + fm.f.prefix + "|" + fu + "|" + fm.f.suffix
+			if seen[key] {
+				continue
+			}
+			seen[key] = true
+			out = append(out, c09Fam{fm.det, scaleFam{fm.f.prefix, fu, fm.f.suffix}})
+		}
+	}
+	return out
+}
+
 // reduced pair alphabets for the quick tier
 var c09QuickAtomsSQL = []string{"'", "\"", "`", "\\", "/", "*", "-", "#", "$", "@", "[", "(", ")", ".", ",", ";", ":", "=", "&", " ", "\n", "\x00", "\x80", "a", "1", "q", "or", "not", "--", "/*"}
 var c09QuickAtomsHTML = []string{"<", ">", "/", "=", "'", "\"", "`", "!", "-", "?", "%", "]", "&", "#", ";", ":", "a", "0", "\x00", " "}
@@ -271,7 +310,7 @@ func c09ParseCase(c core.Case) (c09Fam, int, bool) {
 func c09() *core.Check {
 	ch := &core.Check{
 		ID: "C09",
-		Rule: "scaling experiment per input family (a hand-written catalogue of every construct repeated / nested / left unterminated, behind 4 SQL prefixes, each detector also on the other's constructs; thorough: plus prefix.(a.b)^n for every ordered pair of atoms and six prefixes): thread CPU time (min of k calls) at n, 4n, 16n bytes. " +
+		Rule: "scaling experiment per input family (a hand-written catalogue of every construct repeated / nested / left unterminated, behind 4 SQL prefixes, each detector also on the other's constructs, and every family again with its one-character names / bodies / numbers grown to 8 and 40 characters; thorough: plus prefix.(a.b)^n for every ordered pair of atoms and six prefixes): thread CPU time (min of k calls) at n, 4n, 16n bytes. " +
 			"Violation = growth over the 16x range >= 64 (exponent >= 1.5; linear code measures 13-24, the quadratic scanners 139-360) with t(16n) >= 5 ms, or more than 2 us per input byte, reproduced twice alone in a fresh process with k=7; growth <= 40 is held; in between is inconclusive. Non-trivial = families with a completed three-point measurement; distinct by family.",
 		Assumptions: []string{
 			"thread CPU time of a goroutine locked to its OS thread, minimum of k calls (GC stays enabled at GOGC=400: its assist cost is proportional to allocation, hence to input length)",
@@ -317,10 +356,12 @@ func c09() *core.Check {
 		// three-point measurement
 		screen := append(c09SuffixFams(5), c09QuickPairs()...)
 		screen = append(screen, c09ShapeFams()...)
+		screen = append(screen, c09FatFams()...)
 		s1, s2 := 4<<10, 32<<10
 		if r.Tier == "thorough" {
 			n, k = 64<<10, 5
 			screen = append(c09SuffixFams(len(c09Suffixes)), c09ShapeFams()...)
+			screen = append(screen, c09FatFams()...)
 			a, b := c09PairCount()
 			for i := 0; i < a+b; i++ {
 				screen = append(screen, c09PairFam(i))
@@ -369,7 +410,7 @@ func c09() *core.Check {
 						if t1 < 1 {
 							t1 = 1
 						}
-						if !(float64(t2)/float64(t1) >= 22.6 && t2 >= 1e6) && float64(t2) <= c09CeilNsPerByte*float64(len(in2)) {
+						if !(float64(t2)/float64(t1) >= 14 && t2 >= 5e5) && float64(t2) <= c09CeilNsPerByte*float64(len(in2)) {
 							continue
 						}
 						w.Count("screened_families_suspect", 1)
